@@ -3219,7 +3219,10 @@ RESUME_VALIDATE_CERTS:
         rc = -1;  /* Force the check on existence of user callback */
     }
 
-    if (rc < 0)
+    /* A failure may also have been recorded only in the certificates'
+       authStatus (e.g. validity dates, expected name), in which case
+       matrixValidateCertsExt returned 0 and the loop above set ssl->err. */
+    if (rc < 0 || ssl->err != SSL_ALERT_NONE)
     {
         psTraceInfo("WARNING: cert did not pass internal validation test\n");
         /*      Cert auth failed.  If there is no user callback issue fatal alert
